@@ -228,6 +228,9 @@ def gen_general(rng, sid, qcap=None, max_cmds=6, lines=3, grain="step", mutex=No
     else:
         bufsize, usize = half, rng.choice([0, 1, 2, 3, 5, 8, half, 40])
     sc = Scenario(sid, groups, qcap=qcap, bufsize=bufsize, usize=usize, mutex=mutex, fill=fill, grain=grain, auto=auto)
+    for gi in range(len(groups)):
+        if rng.random() < 0.6:
+            sc.group_names[gi] = rng.choice(["g%d" % gi, "g0", ""])
     allc = sc.cmds()
     nested_ok = not mutex
     for ci, c in enumerate(allc):
@@ -271,6 +274,18 @@ def gen_general(rng, sid, qcap=None, max_cmds=6, lines=3, grain="step", mutex=No
                 sc.qbuf(rng.randrange(len(allc)), rng.choice("rtn"))
             elif r < 0.65:
                 sc.qproc(rng.choice([0, 1]))
+            elif r < 0.75:
+                # the lookups by name (exact, case-sensitive)
+                c = rng.choice(allc)
+                nm = c.name if rng.random() < 0.6 else rng.choice([c.name.swapcase(), c.name[:-1], c.name + "X", ""])
+                k = rng.random()
+                if k < 0.5:
+                    sc.op("scmd %s" % hx(nm))
+                elif k < 0.7:
+                    sc.op("sgrp %s" % hx(rng.choice(["g0", "g1", "G0", "", "zz"])))
+                else:
+                    ci = rng.randrange(len(allc))
+                    sc.op("svar %d %s" % (ci, hx(rng.choice(["x", "val", "", "n1", "X", "nope"]))))
         sc.settle(700)
         if holds:
             # release a possible hold and finish
